@@ -63,6 +63,7 @@ func (g *Gen) GenFunc(key string) (res *FnResult) {
 	c.emit(fmt.Sprintf("(assert (>= %s 1))", c.next0))
 	c.emit(fmt.Sprintf("(assert (= wfnext@0 %s))", c.next0))
 	st.next = c.next0
+	st.tagLo = c.next0
 	var args []Val
 	fr0 := &frame{c: c, fn: fn}
 	for _, p := range fn.Params {
@@ -141,6 +142,11 @@ func (g *Gen) GenFunc(key string) (res *FnResult) {
 			}
 			if ex != nil {
 				for _, goal := range chunkFrame(g.unchangedAll(fr.entry, r.st, ex)) {
+					if goal == "true" {
+						// no other heap has a new version at this return: still an obligation (trivially discharged), so
+						// that its class is in the baseline and a change that makes it fail is reported as a violation
+						goal = "(and true true)"
+					}
 					c.oblige(r.st, path, fmt.Sprintf("frame:modifies@ret%d", j+1), goal, "only the heaps named in modifies change on pre-existing objects", r.pos)
 				}
 			}
